@@ -1332,8 +1332,9 @@ impl RrsigValidity {
 
             // "The RRSIG RR's Signer's Name field MUST be the name of the zone that contains the
             // RRset"
-            // There is nothing to check here, but this does tell us which zone a signature comes
-            // from.
+            // The zone apex is not known here, but a zone can only contain names at or below its
+            // own name, so a signer that is not an ancestor of (or equal to) the owner is wrong.
+            sig_input.signer_name.zone_of(key.name()) &&
 
             // "The RRSIG RR's Type Covered field MUST equal the RRset's type"
             sig_input.type_covered == key.record_type &&
